@@ -131,14 +131,21 @@ TrenchBehaviour(pl, f, kind) ==
                 [op |-> "qtable", h |-> 1, h2 |-> 2, dim |-> 3, props |-> <<PT, PC(1), PTag>>, pos2 |-> <<4, 5, 6>>,
                  twinrel |-> Dec(1, -6), twinabs |-> Dec(1, -3), jitter |-> Dec(1, -7), rows |-> TrenchRows(f)] >>]
 
-VARIABLES frame, pl
-Init == (frame \in CartFrames \cup SphFrames /\ pl = <<>>) \/ (frame \in TrenchFrames /\ pl \in {<<v>> : v \in TLattice})
-Next == /\ pl # <<>> /\ Len(pl) < TMax /\ UNCHANGED frame
-        /\ \E v \in TLattice : /\ v # pl[Len(pl)]
-                                /\ (Len(pl) >= 2 => Cr(pl[Len(pl) - 1], pl[Len(pl)], v) # 0)      \* no exactly collinear triple
-                                /\ pl' = Append(pl, v)
+(* a trench is emitted by its own Finish step, so that a simulation emits the polylines it walked and not every
+   candidate extension *)
+VARIABLES frame, pl, done
+Init == /\ done = FALSE
+        /\ (frame \in CartFrames \cup SphFrames /\ pl = <<>>) \/ (frame \in TrenchFrames /\ pl \in {<<v>> : v \in TLattice})
+Extend == /\ pl # <<>> /\ Len(pl) < TMax /\ ~done /\ UNCHANGED <<frame, done>>
+          /\ \E v \in TLattice : /\ v # pl[Len(pl)]
+                                  /\ (Len(pl) >= 2 => Cr(pl[Len(pl) - 1], pl[Len(pl)], v) # 0)      \* no exactly collinear triple
+                                  /\ pl' = Append(pl, v)
+Finish == Len(pl) >= 3 /\ ~done /\ done' = TRUE /\ UNCHANGED <<frame, pl>>
+Next == Extend \/ Finish
 SpecOK == InverseOK /\ UnitOK
 Emit == IF pl = <<>> THEN PrintT(<<"B", ToJson(Behaviour(frame))>>)
-        ELSE Len(pl) < 3 \/ (PrintT(<<"B", ToJson(TrenchBehaviour(pl, frame, "subducting plate"))>>)
-                              /\ PrintT(<<"B", ToJson(TrenchBehaviour(pl, frame, "fault"))>>))
+        ELSE ~done \/ (PrintT(<<"B", ToJson(TrenchBehaviour(pl, frame, "subducting plate"))>>)
+                        /\ PrintT(<<"B", ToJson(TrenchBehaviour(pl, frame, "fault"))>>))
+(* simulation of long trenches on a larger lattice starts from trench states only *)
+TrenchInit == done = FALSE /\ frame \in TrenchFrames /\ pl \in {<<v>> : v \in TLattice}
 =============================================================================
